@@ -51,6 +51,16 @@ func init() {
 		w, _ := ecdsasigning.PrepareForSigning(c, i, len(ks), dInt(a[3]), ks, pts)
 		return "ok " + eInt(w)
 	}
+	goOps["prepare_bigws"] = func(a []string) string {
+		c := tss.S256()
+		ks := dInts(a[0])
+		var pts []*crypto.ECPoint
+		for _, s := range strings.Split(a[1], ",") {
+			pts = append(pts, dPoint(c, s))
+		}
+		_, ws := ecdsasigning.PrepareForSigning(c, 0, len(ks), bi(1), ks, pts)
+		return "ok " + ePoints(ws)
+	}
 	props["C01"] = runC01
 }
 
@@ -333,6 +343,7 @@ func runC01(r *Run, rng *rand.Rand, thorough bool) {
 			i := rng.Intn(k)
 			xi := bi(int64(i + 2))
 			wi, bigWs := ecdsasigning.PrepareForSigning(S, i, k, xi, ids, pts)
+			r.Do("signing.PrepareForSigning/public-weights", true, "prepare_bigws", eInts(ids), ePoints(pts))
 			lam := func(j int) *big.Int {
 				num, den := bi(1), bi(1)
 				for c := 0; c < k; c++ {
